@@ -52,7 +52,12 @@ func main() {
 	listRules := flag.Bool("rules", false, "list rules")
 	onlyRule := flag.String("rule", "", "run only this rule (debugging)")
 	verbose := flag.Bool("v", false, "print every obligation")
+	dump := flag.String("dump", "", "debug: pkg:Type.Method or pkg:Func to interpret symbolically and dump paths")
 	flag.Parse()
+	if *dump != "" {
+		dumpPaths(*repo, *dump)
+		return
+	}
 	if *listRules {
 		for _, r := range allRules {
 			fmt.Printf("%s floor=%d %s\n", r.ID, r.Floor, r.Doc)
@@ -355,4 +360,35 @@ func trimStack(b []byte) string {
 		lines = lines[:24]
 	}
 	return strings.Join(lines, "\n")
+}
+
+func dumpPaths(repo, spec string) {
+	c, err := load(repo, loadCfg{Name: "default"})
+	if err != nil {
+		fmt.Println(err)
+		return
+	}
+	parts := strings.SplitN(spec, ":", 2)
+	rel, name := parts[0], parts[1]
+	var fd = c.FuncDecl(rel, name)
+	if i := strings.Index(name, "."); i > 0 {
+		fd = c.MethodDecl(rel, name[:i], name[i+1:])
+	}
+	if fd == nil {
+		fmt.Println("not found")
+		return
+	}
+	se := newSymExec(c, rel)
+	a := val{kind: vInt, lin: linSym("arg")}
+	res := se.runFunc(fd, []*val{nil, &a}, []string{"p0", "arg"})
+	for i, pr := range res {
+		fmt.Printf("--- path %d delta=%s conds=%v\n", i, pr.st.delta(), pr.st.conds)
+		for _, cr := range pr.st.calls {
+			fmt.Printf("    call %s args=%v recv=%v\n", cr.callee, cr.args, cr.recv)
+		}
+		for _, as := range pr.st.assigns {
+			fmt.Printf("    assign %s = %s  [%s]\n", as.lhs, as.rhs, as.src)
+		}
+		fmt.Printf("    rets=%v und=%v\n", pr.rets, pr.st.und)
+	}
 }
